@@ -472,7 +472,7 @@ fn one(seed: u64, i: usize, keys: usize, walks: usize) -> DefRes {
 
 pub fn run(env: &Env) -> i32 {
     let t0 = Instant::now();
-    let (n, keys, walks) = if env.quick() { (3000, 24, 24) } else { (60_000, 256, 64) };
+    let (n, keys, walks) = if env.quick() { (3000, 24, 24) } else { (20_000, 128, 48) };
     let n = std::env::var("VERIF_RUNS").ok().and_then(|s| s.parse().ok()).unwrap_or(n);
     let seed = env.seed;
     let next = AtomicUsize::new(0);
